@@ -364,9 +364,107 @@ pub mod life {
         bits
     }
 
+    /// Shared (Arc) channel futures, straight-line: the futures take their Arc handle out for every poll and must put it
+    /// back on Pending and keep it out on Ready. Script: optional try_send, optional close, poll, optional try_send,
+    /// optional close, poll (only if the first poll was Pending), for a shared receive future; and the mirror image
+    /// (optional fill, poll, optional try_receive / close, poll) for a shared send future.
+    pub fn shared_polls<M: lock_api::RawMutex + 'static, S: Src>(s: &mut S, p: u32) -> u32 {
+        type B1 = crate::buffer::ArrayBuf<Tag, [Tag; 1]>;
+        let (tx, rx) = crate::channel::shared::generic_channel::<M, Tag, B1>(1);
+        let cell = WakeCell::new();
+        let waker = ManuallyDrop::new(mk_waker(&cell));
+        let mut cx = Context::from_waker(&waker);
+        let side = s.flag(); // false: receive future, true: send future
+        let mut bits = 0;
+        if !side {
+            let mut buffered = false;
+            let mut closed = false;
+            if s.flag() { core::mem::forget(tx.try_send(Tag(1))); buffered = true; }
+            if s.flag() { let _ = tx.close(); closed = true; }
+            let mut f = ManuallyDrop::new(rx.receive());
+            if (p & P17) != 0 { assert!(!f.is_terminated(), "C17 shared receive future: fresh future reports terminated"); }
+            let r1 = unsafe { Pin::new_unchecked(&mut *f) }.poll(&mut cx);
+            let ready1 = r1.is_ready();
+            match r1 {
+                Poll::Ready(Some(t)) => { if (p & (P08 | P09)) != 0 { assert!(buffered && t.0 == 1, "C08 shared receive future: yielded a value that is not buffered"); } core::mem::forget(t); }
+                Poll::Ready(None) => { if (p & (P08 | P11)) != 0 { assert!(closed && !buffered, "C11 shared receive future: None although open or a value is buffered"); } }
+                Poll::Pending => { if (p & (P10 | P08)) != 0 { assert!(!buffered && !closed, "C10 shared receive future: pending although a value is buffered or the channel is closed"); } }
+            }
+            if (p & P17) != 0 { assert!(f.is_terminated() == ready1, "C17 shared receive future: is_terminated() wrong after the first poll (handle not restored after Pending / kept after Ready)"); }
+            if !ready1 {
+                let sent = s.flag();
+                if sent { core::mem::forget(tx.try_send(Tag(2))); }
+                let cl = s.flag();
+                if cl { let _ = tx.close(); }
+                if (p & P10) != 0 && (sent || cl) { assert!(cell.n() >= 1, "C10 shared receive future: not woken by the send/close"); }
+                let r2 = unsafe { Pin::new_unchecked(&mut *f) }.poll(&mut cx);
+                let ready2 = r2.is_ready();
+                match r2 {
+                    Poll::Ready(Some(t)) => { if (p & (P08 | P09)) != 0 { assert!(sent && t.0 == 2, "C08 shared receive future: second poll yielded a wrong value"); } core::mem::forget(t); }
+                    Poll::Ready(None) => { if (p & (P08 | P11)) != 0 { assert!(cl && !sent, "C11 shared receive future: None although open or a value is buffered"); } }
+                    Poll::Pending => { if (p & (P10 | P08)) != 0 { assert!(!sent && !cl, "C10 shared receive future: pending although a value is buffered or closed"); } }
+                }
+                if (p & P17) != 0 { assert!(f.is_terminated() == ready2, "C17 shared receive future: is_terminated() wrong after the second poll"); }
+                bits |= 1;
+            }
+            // the future may outlive both handles
+            drop(tx);
+            drop(rx);
+            unsafe { ManuallyDrop::drop(&mut f) };
+        } else {
+            let mut full = false;
+            let mut closed = false;
+            if s.flag() { core::mem::forget(tx.try_send(Tag(1))); full = true; }
+            if s.flag() { let _ = tx.close(); closed = true; }
+            let mut f = ManuallyDrop::new(tx.send(Tag(5)));
+            if (p & P17) != 0 { assert!(!f.is_terminated(), "C17 shared send future: fresh future reports terminated"); }
+            let r1 = unsafe { Pin::new_unchecked(&mut *f) }.poll(&mut cx);
+            let ready1 = r1.is_ready();
+            match r1 {
+                Poll::Ready(Ok(())) => { if (p & (P08 | P09)) != 0 { assert!(!closed && !full, "C09 shared send future: completed on a full or closed channel"); } }
+                Poll::Ready(Err(e)) => { if (p & (P08 | P11)) != 0 { assert!(closed && (e.0).0 == 5, "C08 shared send future: failed on an open channel or returned a foreign value"); } core::mem::forget(e); }
+                Poll::Pending => { if (p & (P09 | P10)) != 0 { assert!(full && !closed, "C09 shared send future: pending although there is room or the channel is closed"); } }
+            }
+            if (p & P17) != 0 { assert!(f.is_terminated() == ready1, "C17 shared send future: is_terminated() wrong after the first poll (handle not restored after Pending / kept after Ready)"); }
+            if !ready1 {
+                let what = s.below(3); // 0 receive, 1 close, 2 cancel
+                if what == 0 {
+                    match rx.try_receive() { Ok(t) => { if (p & P09) != 0 { assert!(t.0 == 1, "C09 shared channel: try_receive out of order"); } core::mem::forget(t); } Err(_) => { if (p & P08) != 0 { assert!(false, "C08 shared channel: buffered value lost"); } } }
+                    if (p & P10) != 0 { assert!(cell.n() >= 1, "C10 shared send future: parked sender not woken when its value was accepted"); }
+                } else if what == 1 {
+                    let _ = tx.close();
+                    if (p & P10) != 0 { assert!(cell.n() >= 1, "C10 shared send future: parked sender not woken by close()"); }
+                } else {
+                    let got = f.cancel();
+                    if (p & P08) != 0 { assert!(got.as_ref().map(|t| t.0) == Some(5), "C08 shared send future: cancel() of a parked sender did not hand the value back"); }
+                    core::mem::forget(got);
+                    if (p & P17) != 0 { assert!(f.is_terminated(), "C17 shared send future: not terminated after cancel()"); }
+                }
+                if what != 2 {
+                    let r2 = unsafe { Pin::new_unchecked(&mut *f) }.poll(&mut cx);
+                    let ready2 = r2.is_ready();
+                    match r2 {
+                        Poll::Ready(Ok(())) => { if (p & (P08 | P09)) != 0 { assert!(what == 0, "C09 shared send future: completed without its value being accepted"); } }
+                        Poll::Ready(Err(e)) => { if (p & (P08 | P11)) != 0 { assert!(what == 1 && (e.0).0 == 5, "C08 shared send future: failed wrongly or returned a foreign value"); } core::mem::forget(e); }
+                        Poll::Pending => { if (p & (P09 | P10)) != 0 { assert!(false, "C10 shared send future: still pending after its value was accepted / the channel was closed"); } }
+                    }
+                    if (p & P17) != 0 { assert!(f.is_terminated() == ready2, "C17 shared send future: is_terminated() wrong after the second poll"); }
+                }
+                bits |= 2;
+            }
+            drop(tx);
+            core::mem::forget(rx);
+            unsafe { ManuallyDrop::drop(&mut f) };
+        }
+        s.reached(bits);
+        bits
+    }
+
     pub fn replay(name: &str, _cfg: u32, p: u32, s: &mut ScriptSrc<'_>) -> bool {
         type NL = crate::LocalLock;
         match name {
+            "shared_polls" => { shared_polls::<NL, _>(s, p); }
+            "shared_polls_check" => { shared_polls::<CheckLock, _>(s, p); }
             "shared_mpmc" => { shared_mpmc::<NL, _>(s, 64, p); }
             "life_mpmc_discard" => { mpmc_discard::<NL, _>(s, p); }
             "life_mpmc_discard_check" => { mpmc_discard::<CheckLock, _>(s, p); }
@@ -505,6 +603,27 @@ pub mod life {
         #[kani::proof]
         #[kani::unwind(5)]
         fn shared_mpmc_c01_n4() { let _ = shared_mpmc::<NL, _>(&mut KaniSrc, 4, P01); }
+        #[kani::proof]
+        #[kani::unwind(4)]
+        fn shared_polls_c08() { let b = shared_polls::<NL, _>(&mut KaniSrc, P08); kani::cover!(b != 0, "W shared future: first poll pending, second poll made"); }
+        #[kani::proof]
+        #[kani::unwind(4)]
+        fn shared_polls_c09() { let b = shared_polls::<NL, _>(&mut KaniSrc, P09); kani::cover!(b != 0, "W shared future: first poll pending, second poll made"); }
+        #[kani::proof]
+        #[kani::unwind(4)]
+        fn shared_polls_c10() { let b = shared_polls::<NL, _>(&mut KaniSrc, P10); kani::cover!(b != 0, "W shared future: first poll pending, second poll made"); }
+        #[kani::proof]
+        #[kani::unwind(4)]
+        fn shared_polls_c11() { let b = shared_polls::<NL, _>(&mut KaniSrc, P11); kani::cover!(b != 0, "W shared future: first poll pending, second poll made"); }
+        #[kani::proof]
+        #[kani::unwind(4)]
+        fn shared_polls_c17() { let b = shared_polls::<NL, _>(&mut KaniSrc, P17); kani::cover!(b != 0, "W shared future: first poll pending, second poll made"); }
+        #[kani::proof]
+        #[kani::unwind(4)]
+        fn shared_polls_c01() { let b = shared_polls::<NL, _>(&mut KaniSrc, P01); kani::cover!(b != 0, "W shared future: first poll pending, second poll made"); }
+        #[kani::proof]
+        #[kani::unwind(4)]
+        fn shared_polls_c17_check() { let _ = shared_polls::<CheckLock, _>(&mut KaniSrc, P17); }
         life_proof!(life_mpmc_n3, Mpmc<NL>, 3, P11, 5);
         life_proof!(life_mpmc_n4, Mpmc<NL>, 4, P11, 6);
         life_proof!(life_mpmc_n5, Mpmc<NL>, 5, P11, 7);
